@@ -4,13 +4,19 @@ package main
 
 import (
 	"bytes"
+	"encoding/binary"
 	"encoding/json"
 	"fmt"
+	"io"
+	"os"
 	"sort"
 	"strings"
+	"time"
 
 	"golang.org/x/crypto/ssh"
+	"golang.org/x/crypto/ssh/agent"
 
+	"github.com/theparanoids/ysshra/agent/shimagent"
 	"github.com/theparanoids/ysshra/config"
 	"github.com/theparanoids/ysshra/gensign"
 	"github.com/theparanoids/ysshra/gensign/regular"
@@ -18,7 +24,34 @@ import (
 	"github.com/theparanoids/ysshra/internal/zzverif/ev"
 	"github.com/theparanoids/ysshra/internal/zzverif/fix"
 	"github.com/theparanoids/ysshra/internal/zzverif/uagent"
+	"github.com/theparanoids/ysshra/zzverifrt/vnet"
+	"github.com/theparanoids/ysshra/zzverifrt/vtime"
 )
+
+// oneShot is the transport of a single request: ServeAgent reads the frame, writes the reply and sees end of stream.
+type oneShot struct {
+	in  *bytes.Reader
+	out bytes.Buffer
+}
+
+func (o *oneShot) Read(p []byte) (int, error)  { return o.in.Read(p) }
+func (o *oneShot) Write(p []byte) (int, error) { return o.out.Write(p) }
+
+// serveThrough makes a synchronous reactor peer out of an agent: every request frame is served by x/crypto's agent server.
+func serveThrough(ag agent.Agent) func(frame []byte) vnet.Reply {
+	return func(frame []byte) vnet.Reply {
+		buf := make([]byte, 4+len(frame))
+		binary.BigEndian.PutUint32(buf, uint32(len(frame)))
+		copy(buf[4:], frame)
+		o := &oneShot{in: bytes.NewReader(buf)}
+		if err := agent.ServeAgent(ag, o); err != nil && err != io.EOF {
+			return vnet.Reply{Raw: o.out.Bytes(), Close: true}
+		}
+		return vnet.Reply{Raw: o.out.Bytes()}
+	}
+}
+
+var c03Seq int
 
 const c03Label = "paranoids.regular"
 
@@ -40,11 +73,16 @@ type c03World struct {
 	genOf    map[string]int // blob -> run number that provisioned it
 	foreign  map[string]string
 	thorough bool
+	shim     bool   // the requester's agent is the project's own shim agent in front of the key store
+	addr     string
 	c        *ev.Ctx
 }
 
 func newC03World(c *ev.Ctx, root string) bfs.World {
 	x := &c03World{genOf: map[string]int{}, foreign: map[string]string{}, thorough: c.Thorough(), c: c}
+	if strings.HasSuffix(root, "/shim") {
+		x.shim, root = true, strings.TrimSuffix(root, "/shim")
+	}
 	x.e = newEnv(envOpt{KeyDir: "pub", LogName: "alice", Validity: 43200, KeyIDs: map[string]string{"default": "slot"}, Behaviour: "honest", AgentHasKey: true})
 	var mask int
 	fmt.Sscanf(root, "%d", &mask)
@@ -64,14 +102,33 @@ func newC03World(c *ev.Ctx, root string) bfs.World {
 	for _, id := range x.e.ua.Ring.Keys {
 		x.foreign[string(id.Blob)] = id.Comment
 	}
+	if x.shim {
+		c03Seq++
+		x.addr = fmt.Sprintf("/verif/c03-ua-%d", c03Seq)
+		x.e.ua.Listen(x.addr)
+		vtime.Set(time.Unix(int64(x.e.ca.ValidAt), 0))
+		sh, err := shimagent.New(shimagent.Option{Address: x.addr})
+		if err != nil {
+			panic("c03: shimagent.New over a healthy agent: " + err.Error())
+		}
+		x.e.conn = &vnet.Reactor{Handler: serveThrough(sh), Name: "forwarded-shim-agent"}
+	}
 	return x
 }
 
 func (x *c03World) Init() []bfs.Finding { return nil }
-func (x *c03World) Close()              { x.e.close() }
+func (x *c03World) Close() {
+	if x.shim {
+		vnet.Unregister(x.addr)
+	}
+	x.e.close()
+}
 
 func (x *c03World) Key() string {
 	var s []string
+	if x.shim {
+		s = append(s, "~shim")
+	}
 	for _, id := range x.e.ua.Ring.Keys {
 		if _, f := x.foreign[string(id.Blob)]; f {
 			s = append(s, "foreign:"+id.Comment)
@@ -94,6 +151,10 @@ func (x *c03World) Enabled() []bfs.Op {
 		}
 	}
 	ops = append(ops, bfs.Op{Name: "ok", Arg: "1/none", Arg2: "1"}, bfs.Op{Name: "ok", Arg: "2/short-empty", Arg2: "315360000"})
+	if x.shim {
+		// request indices at the key store differ behind the shim; agent faults under a shim are C10's subject
+		return append(ops, bfs.Op{Name: "fail-auth"}, bfs.Op{Name: "fail-generate-noslot"}, bfs.Op{Name: "fail-ca"})
+	}
 	ops = append(ops, bfs.Op{Name: "fail-auth"}, bfs.Op{Name: "fail-generate-agent"}, bfs.Op{Name: "fail-generate-noslot"}, bfs.Op{Name: "fail-ca"},
 		bfs.Op{Name: "fail-agent-list"}, bfs.Op{Name: "fail-agent-certadd"})
 	if len(x.labelled()) > 0 {
@@ -193,6 +254,11 @@ func (x *c03World) Apply(op bfs.Op) (fs []bfs.Finding) {
 	newAdds := e.ua.Ring.AddLog[addsBefore:]
 	for _, a := range newAdds {
 		x.genOf[string(a.Blob)] = x.runs
+	}
+	if os.Getenv("C03DBG") != "" {
+		for _, l := range e.ua.Log[base:] {
+			fmt.Fprintf(os.Stderr, "DBG %s: %+v\n", op.Name, l)
+		}
 	}
 	x.c.Outcome(op.Name + "/" + errType(err))
 	// foreign and near-miss identities are never removed or altered
@@ -295,11 +361,16 @@ func (x *c03World) Apply(op bfs.Op) (fs []bfs.Finding) {
 
 func checkC03(c *ev.Ctx) {
 	defer cleanupScratch()
-	c.Rule("E1 BFS over sequences of real gensign.Run executions against one agent: transitions = success with the CA returning 1..3 certificates x comment lists {none, shorter with empty strings, longer} and validity {1 s, 12 h, 10 y}; failure at authentication, at private-key insertion, missing key slot, CA error, agent failure at list / certificate add (thorough: remove, CA panic); roots = all 32 subsets of {plain key, foreign certificate, 3 near-miss comments}; state = canonical identity multiset (class, generation age, comment, lifetime). non-trivial = successful run, or failed run with certificates at stake; distinct by (state, transition)")
+	c.Rule("E1 BFS over sequences of real gensign.Run executions against one agent: transitions = success with the CA returning 1..3 certificates x comment lists {none, shorter with empty strings, longer} and validity {1 s, 12 h, 10 y}; failure at authentication, at private-key insertion, missing key slot, CA error, agent failure at list / certificate add (thorough: remove, CA panic); roots = all 32 subsets of {plain key, foreign certificate, 3 near-miss comments} over a plain key store, plus 6 of them behind the real shim agent (virtual clock; fault-free and pre-signing-failure transitions); state = canonical identity multiset (class, generation age, comment, lifetime). non-trivial = successful run, or failed run with certificates at stake; distinct by (state, transition)")
 	c.Assume("identities whose comment contains the handler name inside a longer word are don't-care", "lifetime constraints are read from the add-identity requests as parsed by x/crypto's agent server")
 	var roots []string
 	for m := 0; m < 32; m++ {
 		roots = append(roots, fmt.Sprint(m))
+	}
+	// the same histories with the project's own shim agent as the requester's agent (it lists certificates under
+	// rewritten comments and removes lapsed ones on its own)
+	for _, m := range []int{0, 31, 5, 10, 16, 3} {
+		roots = append(roots, fmt.Sprintf("%d/shim", m))
 	}
 	depth := 3
 	if c.Thorough() {
